@@ -242,6 +242,20 @@ func init() {
 		werr := e.Write(&buf)
 		return L(v1, v2, bytesR(buf.Bytes(), werr))
 	})
+	// one Exchange verified with a sequence of different fetchers
+	regOp("sxg_read_verify_seq", func(a []Sx) Sx {
+		e, err := sxg.ReadExchange(bytes.NewReader(a[0].B))
+		if err != nil {
+			return L(Sym("invalid"))
+		}
+		t := time.Unix(a[1].I64(), a[2].I64())
+		out := []Sx{}
+		for _, ft := range a[4].L {
+			p, ok := e.Verify(t, fetcherOf(ft), discardLog)
+			out = append(out, verdictSx(append([]byte{}, p...), ok))
+		}
+		return L(out...)
+	})
 	regOp("sxg_read_edit_verify", func(a []Sx) Sx {
 		e, err := sxg.ReadExchange(bytes.NewReader(a[0].B))
 		if err != nil {
